@@ -25,9 +25,9 @@ PROPS = {
         "assumptions": ["downstream code never sees the feature: checked by the frame scan above"],
     },
     "C03": {
-        "units": {"front": FRONT_PARSE, "solver": ["solve_expression", "solve", "match_all", "match_of", "slow_aho", "search", "lemma_syntax_to_wf", "lemma_match_unfold", "lemma_ids_wf", "lemma_matrix_cells"], "matrix": MATRIX_FNS, "rewrite": REWRITE_FNS},
-        "explanation": "every panic site of the extracted solver functions is discharged from wf(); the condition parser is proved to establish wf_syntax (operands of and/or/not are predicates), and lemma_syntax_to_wf bridges the two; matrix() is proved panic-free (char::from_u32(..).expect, the final expect, arithmetic) and to return a well-formed expression - in particular every Matrix cell only asks for column keys below the table width, which is what the solver's Matrix arm needs; rewrite() / rewrite_search() are proved panic-free (the rebuilt regex may fail to build: the original is kept) and shape-preserving, hence wf-preserving",
-        "assumptions": ["identifier-existence scan in the serde visitor (rule.rs:101-125) is not under contract: closed(e, ids) is an assumed link",
+        "units": {"front": FRONT_PARSE, "solver": ["solve_expression", "solve", "match_all", "match_of", "slow_aho", "search", "lemma_syntax_to_wf", "lemma_match_unfold", "lemma_ids_wf", "lemma_matrix_cells"], "matrix": MATRIX_FNS, "rewrite": REWRITE_FNS, "scan": ["ident_scan"]},
+        "explanation": "every panic site of the extracted solver functions is discharged from wf(); the condition parser is proved to establish wf_syntax (operands of and/or/not are predicates), and lemma_syntax_to_wf bridges the two; matrix() is proved panic-free (char::from_u32(..).expect, the final expect, arithmetic) and to return a well-formed expression - in particular every Matrix cell only asks for column keys below the table width, which is what the solver's Matrix arm needs; the loader's identifier-existence scan is proved at token level; rewrite() / rewrite_search() are proved panic-free (the rebuilt regex may fail to build: the original is kept) and shape-preserving, hence wf-preserving",
+        "assumptions": ["identifier existence: the scan loop of the serde visitor is proved (slice ident_scan: a rule is accepted iff every identifier TOKEN outside a cast / not( field position names an entry); the step from tokens to the parsed tree (an Identifier node of p_parse comes from such a token) is the remaining assumed link closed(e, ids)",
                         "identifier bodies built by parse_mapping are assumed well formed (ids_wf)"],
     },
     "C04": {
